@@ -1,0 +1,30 @@
+//go:build verif
+
+// Contracts for the deductive checks under /verif (comment-only; no code).
+
+package provider
+
+// "the validator accepts c under allowlist al" (right-hand side of verifcid.ValidateCid's contract)
+//@ macro validKey(al, c) = alAllowed(al, cidPrefix(c).MhType) && alMin(al, cidPrefix(c).MhType) <= cidPrefix(c).MhLength && cidPrefix(c).MhLength <= alMax(al, cidPrefix(c).MhType)
+//@ spec cidHashP(c cid.Cid) multihash.Multihash
+//@ func ext (github.com/ipfs/go-cid.Cid).Hash
+//@   ensures result == cidHashP(c)
+//@ func doProvideMany
+//@   assumed
+//@ func (*reprovider).waitUntilProvideSystemReady
+//@   assumed
+//@ func storeTime
+//@   assumed
+
+// Reprovide: every key handed to the router passed the allowlist, and every round of the
+// outer loop reads the key channel at least once (a batch size of 0 would spin forever
+// without ever seeing the end of the key stream)
+//@ func (*reprovider).Reprovide
+//@   prop C44
+//@   arith int-assumed
+//@   requires s != nil
+//@   modifies all
+//@   dyn calldyn noeffect
+//@   loop 0 invariant[each_round_reads_keys] batchSize >= 1
+//@   site[announce_only_allowed] builtin:append : validKey(s.allowlist, c) && len(arg1) == 1 && arg1[0] == cidHashP(c)
+//@   site[non_empty_batches] call:doProvideMany : len(arg2) > 0
